@@ -37,8 +37,8 @@ def nontrivial(req, obs):
 
 SPEC = {
     "id": "C07",
-    "gens": ["HashSites", "EnumRange", "GlobalState", "Reserved"],
-    "lean_modules": ["RsslVerif.Thm.C07", "RsslVerif.Lemmas.EnumRange", "RsslVerif.Model.History", "RsslVerif.Thm.C02", "RsslVerif.Thm.C15"],
+    "gens": ["HashSites", "EnumRange", "GlobalState", "Reserved", "UsageTables"],
+    "lean_modules": ["RsslVerif.Thm.C07", "RsslVerif.Lemmas.EnumRange", "RsslVerif.Model.History", "RsslVerif.Model.MemoDfs", "RsslVerif.Thm.C02", "RsslVerif.Thm.C15"],
     "theorems": [T + n for n in [
         "sort_perm_invariant", "collectSort_perm_invariant", "sortBy_key_perm_invariant",
         "lookup_perm_invariant", "fold_perm_invariant", "firstFailure_ok_perm_invariant", "firstFailure_perm_invariant",
@@ -51,10 +51,17 @@ SPEC = {
         # history independence: no process-wide state (tie: Gen.GlobalState), and what that buys (Model/History.lean)
         "history_independent_of_stateless", "runSeq_eq_map_fresh", "history_independent_of_no_state",
         "real_reserved_set_history_independent", "once_lock_history_dependent",
-        "no_process_wide_state", "no_ambient_inputs", "global_state_scan_not_empty"]] + [
+        "no_process_wide_state", "no_ambient_inputs", "global_state_scan_not_empty",
+        # the usage fixpoint on CYCLIC tables: tie of the loop text, order independence for every well-formed table,
+        # a call cycle satisfying the hypotheses, and the seeded memoising DFS (Model/MemoDfs.lean) order dependent on one
+        "usage_recurse_shape_as_modelled", "usage_fixpoint_total_and_order_independent",
+        "usage_fixpoint_order_independent_on_cycle", "memo_dfs_order_dependent_on_cycle",
+        "memo_dfs_set_order_dependent_on_cycle"]] + [
         "RsslVerif.Lemmas.EnumRange.foldl_perm_of_invariant",
         # the two non-trivial sites are proved order independent over the models of the code itself
-        "RsslVerif.Thm.C02.closure_order_independent",      # usage-analysis fixpoint (recurse) vs key iteration order
+        "RsslVerif.Thm.C02.closure_order_independent",      # usage-analysis fixpoint (recurse) vs key iteration order;
+        # hypothesis WF only (no acyclicity): see usage_fixpoint_order_independent_on_cycle for a 2-cycle instance
+        "RsslVerif.Thm.C02.recurse_terminates", "RsslVerif.Thm.C02.close_is_reachability",
         "RsslVerif.Thm.C02.required_order_independent",     # required_globals collect + sort
         "RsslVerif.Thm.C15.build_scope_order_independent",  # NameMap::build vs scope-map and key-map iteration order
     ],
